@@ -50,8 +50,22 @@ def enum_nets(n_inputs, k_gates, alphabet=ALL_TYPES, max_nary=3, outputs='std'):
             yield Net(ins, outs, g)
 
 
+_LARGE = [0]
+
+
 def random_net(rng, n_inputs=None, k_gates=None, alphabet=ALL_TYPES, max_nary=4, max_outputs=3,
-               permute_storage=True, allow_no_outputs=False, prefix=''):
+               permute_storage=True, allow_no_outputs=False, prefix='', large_every=None):
+    """`large_every=m`: every m-th call (per process, per caller stream) returns a LARGE circuit (15..40 gates, same number
+    of inputs) drawn from a separate generator - behaviour that only changes beyond some size (a counter, a threshold, a
+    fast path) is invisible on circuits of <= 8 gates.  The main stream `rng` is consumed exactly as without the option,
+    so all the other circuits of a run are unchanged."""
+    if large_every:
+        _LARGE[0] += 1
+        if _LARGE[0] % large_every == 0:
+            random_net(rng, n_inputs, k_gates, alphabet, max_nary, max_outputs, permute_storage, allow_no_outputs, prefix)   # keep the stream
+            r2 = rng_for('large', _LARGE[0], n_inputs, max_nary)
+            return random_net(r2, n_inputs if n_inputs is not None else r2.randint(1, 5), r2.randint(15, 40), alphabet, max_nary, max_outputs,
+                              permute_storage, allow_no_outputs, prefix)
     n = rng.randint(0, 4) if n_inputs is None else n_inputs
     k = rng.randint(0, 7) if k_gates is None else k_gates
     ins = [f'{prefix}x{i}' for i in range(n)]
